@@ -110,8 +110,11 @@ Definition step (c : cfg) (s : state) (o : op) : state * out :=
             | (None, s1) => (s1, OFault)
             end
   | Confirm => (set_pending s true, ONone)
-  | Out n =>
-      (* dequeue_indication_or_confirmation, then the CCCD test, then the read handler *)
+  | Out n0 =>
+      (* out_size is clipped to the negotiated MTU (23: no MTU exchange in this model), then
+         dequeue_indication_or_confirmation, the CCCD test, the read handler; an indication that is
+         not sent does not stay outstanding (indication_confirmed() is called) *)
+      let n := N.min n0 att_mtu in
       if pending s && negb (outstanding s) then
         let s1 := mk (in_progress s) (opcode s) (cur_pos s) (req_pos s) (wheel s) (cccd s) false true in
         if negb (N.land (cccd s) 2 =? 0) && (3 <=? n) then
@@ -119,7 +122,7 @@ Definition step (c : cfg) (s : state) (o : op) : state * out :=
           | (Some r, s2) => (s2, OInd r)
           | (None, s2) => (s2, OFault)
           end
-        else (s1, ONone)
+        else (mk (in_progress s) (opcode s) (cur_pos s) (req_pos s) (wheel s) (cccd s) false false, ONone)
       else (s, ONone)
   | Hvc => (mk (in_progress s) (opcode s) (cur_pos s) (req_pos s) (wheel s) (cccd s) (pending s) false, ONone)
   | HvcBad => (s, OResp [1; 30; 0; 0; 4])
